@@ -706,6 +706,406 @@ fn trunc_old(s1: &Script, s2: &Script) -> (Vec<Value>, Vec<u8>) {
     (steps, out)
 }
 
+//------------ size limits: every limiting entry point of both builders ------------
+
+/// A target with a capacity chosen at run time: appending beyond `cap`
+/// octets fails with ShortBuf, like `octseq::Array<N>` does for its N.
+struct Capped {
+    v: Vec<u8>,
+    cap: usize,
+}
+impl AsRef<[u8]> for Capped {
+    fn as_ref(&self) -> &[u8] {
+        &self.v
+    }
+}
+impl AsMut<[u8]> for Capped {
+    fn as_mut(&mut self) -> &mut [u8] {
+        &mut self.v
+    }
+}
+impl octseq::builder::OctetsBuilder for Capped {
+    type AppendError = octseq::builder::ShortBuf;
+    fn append_slice(&mut self, slice: &[u8]) -> Result<(), Self::AppendError> {
+        if self.v.len() + slice.len() > self.cap {
+            return Err(octseq::builder::ShortBuf);
+        }
+        self.v.extend_from_slice(slice);
+        Ok(())
+    }
+}
+impl octseq::builder::Truncate for Capped {
+    fn truncate(&mut self, len: usize) {
+        self.v.truncate(len)
+    }
+}
+impl domain::base::wire::Composer for Capped {}
+
+/// How a run is limited.  `p` is the parameter handed to the entry point,
+/// `at` the number of pushes made before the limiting call (0: before the
+/// question), `pre` a second, laxer limit set at the very start.
+#[derive(Clone, Copy, Debug)]
+struct Plan {
+    ep: &'static str,
+    p: usize,
+    at: usize,
+    pre: Option<usize>,
+}
+
+fn lim_json(ok: bool, p: usize, len: usize, c: [u16; 4]) -> Value {
+    json!({"op": "limit", "sec": 0, "ok": ok, "p": p, "need": 0, "len": len, "counts": [c[0], c[1], c[2], c[3]]})
+}
+fn push_json(sec: u8, ok: bool, need: usize, len: usize, c: [u16; 4]) -> Value {
+    json!({"op": "push", "sec": sec, "ok": ok, "p": 0, "need": need, "len": len, "counts": [c[0], c[1], c[2], c[3]]})
+}
+fn trunc_json(len: usize, c: [u16; 4]) -> Value {
+    json!({"op": "trunc", "sec": 0, "ok": true, "p": 0, "need": 0, "len": len, "counts": [c[0], c[1], c[2], c[3]]})
+}
+
+macro_rules! old_push {
+    ($b:expr, $r:expr) => {{
+        let name = |x: &str| Name::<Vec<u8>>::from_str(x).unwrap();
+        let ttl = Ttl::from_secs(60);
+        match &$r.rd {
+            Rd::Ns(n) => $b.push(Record::new(name(&$r.owner), Class::IN, ttl, Ns::new(name(n)))),
+            Rd::Cname(n) => $b.push(Record::new(name(&$r.owner), Class::IN, ttl, Cname::new(name(n)))),
+            Rd::Mx(n) => $b.push(Record::new(name(&$r.owner), Class::IN, ttl, Mx::new(10, name(n)))),
+            Rd::A => $b.push(Record::new(name(&$r.owner), Class::IN, ttl, A::from_octets(1, 2, 3, 4))),
+            Rd::Raw(k) => $b.push(Record::new(
+                name(&$r.owner),
+                Class::IN,
+                ttl,
+                UnknownRecordData::from_octets(Rtype::from_int(65280), vec![7u8; *k]).unwrap(),
+            )),
+        }
+        .is_ok()
+    }};
+}
+
+/// The established builder on target `t`: the items `idx` of the script are
+/// pushed (all attempted, failures included); `hook(i, builder)` runs before
+/// push number i.  Returns per push (ok, length after, counts after) and the
+/// finished octets.
+fn old_run<T: domain::base::wire::Composer>(
+    t: T,
+    s: &Script,
+    idx: &[usize],
+    rewind: Option<(usize, usize)>,
+    hook: &mut dyn FnMut(usize, &mut MessageBuilder<TreeCompressor<T>>, &mut Vec<Value>),
+) -> (Vec<Value>, Vec<bool>, Vec<u8>) {
+    let cnt = |c: domain::base::header::HeaderCounts| [c.qdcount(), c.ancount(), c.nscount(), c.arcount()];
+    let name = |x: &str| Name::<Vec<u8>>::from_str(x).unwrap();
+    let mut mb = MessageBuilder::from_target(TreeCompressor::new(t)).map_err(|_| ()).expect("target holds a header");
+    mb.header_mut().set_id(0x1234);
+    mb.header_mut().set_qr(true);
+    let mut steps = vec![];
+    let mut oks = vec![];
+    // an optional first segment under push limit p that is rewound
+    // (`builder()`): the limit must survive it
+    if let Some((k, p)) = rewind {
+        mb.set_push_limit(p);
+        steps.push(lim_json(true, p, mb.as_slice().len(), cnt(mb.counts())));
+        let mut qb = mb.question();
+        let _ = qb.push(Question::new(name(&s.qname), Rtype::A, Class::IN));
+        let mut ab = qb.answer();
+        for r in s.recs.iter().take(k) {
+            let _ = old_push!(ab, r);
+        }
+        mb = ab.builder();
+        steps.push(trunc_json(mb.as_slice().len(), cnt(mb.counts())));
+    }
+    let mut n = 0usize; // number of pushes attempted so far
+    hook(n, &mut mb, &mut steps);
+    let mut qb = mb.question();
+    if idx.contains(&0) {
+        let before = qb.as_slice().len();
+        let ok = qb.push(Question::new(name(&s.qname), Rtype::A, Class::IN)).is_ok();
+        let _ = before;
+        steps.push(push_json(0, ok, 0, qb.as_slice().len(), cnt(qb.counts())));
+        oks.push(ok);
+        n += 1;
+    }
+    macro_rules! section {
+        ($b:expr, $sec:expr) => {
+            for (i, r) in s.recs.iter().enumerate().filter(|(i, r)| r.sec == $sec && idx.contains(&(i + 1))) {
+                let _ = i;
+                hook(n, $b.as_builder_mut(), &mut steps);
+                let ok = old_push!($b, r);
+                steps.push(push_json(r.sec, ok, 0, $b.as_slice().len(), cnt($b.counts())));
+                oks.push(ok);
+                n += 1;
+            }
+        };
+    }
+    let mut ab = qb.answer();
+    section!(ab, 1);
+    let mut nb = ab.authority();
+    section!(nb, 2);
+    let mut xb = nb.additional();
+    section!(xb, 3);
+    let out = xb.finish();
+    (steps, oks, out.as_ref().to_vec())
+}
+
+fn new_rec_push(b: &mut NewBuilder<'_, '_>, r: &Rec) -> bool {
+    let rn = |x: &str| RevNameBuf::from_str(x).unwrap();
+    let nn = |x: &str| NameBuf::from_str(x).unwrap();
+    let raw;
+    let holder: NameBuf = match &r.rd {
+        Rd::Ns(n) | Rd::Cname(n) | Rd::Mx(n) => nn(n),
+        _ => nn("a."),
+    };
+    let nref: &NewName = &holder;
+    let (t, rdata): (u16, nrd::RecordData<'_, &NewName>) = match &r.rd {
+        Rd::Ns(_) => (2, nrd::RecordData::Ns(nrd::Ns { server: nref })),
+        Rd::Cname(_) => (5, nrd::RecordData::CName(nrd::CName { name: nref })),
+        Rd::Mx(_) => (15, nrd::RecordData::Mx(nrd::Mx { preference: U16::new(10), exchange: nref })),
+        Rd::A => (1, nrd::RecordData::A(nrd::A { octets: [1, 2, 3, 4] })),
+        Rd::Raw(k) => {
+            raw = vec![7u8; *k];
+            (65280, nrd::RecordData::Unknown(RType::from(65280u16), <&nrd::UnknownRecordData>::parse_bytes(&raw).unwrap()))
+        }
+    };
+    let rec = domain::new::base::Record {
+        rname: rn(&r.owner),
+        rtype: RType::from(t),
+        rclass: RClass::IN,
+        ttl: TTL::from(60),
+        rdata,
+    };
+    match r.sec {
+        1 => b.push_answer(&rec).is_ok(),
+        2 => b.push_authority(&rec).is_ok(),
+        _ => b.push_additional(&rec).is_ok(),
+    }
+}
+
+/// the same on the new builder with a buffer of `bufsize` octets
+fn new_run(
+    bufsize: usize,
+    s: &Script,
+    idx: &[usize],
+    rewind: Option<(usize, usize)>,
+    hook: &mut dyn FnMut(usize, &mut NewBuilder<'_, '_>, &mut Vec<Value>),
+) -> (Vec<Value>, Vec<bool>, Vec<u8>) {
+    let mut buffer = vec![0u8; bufsize];
+    let mut compressor = NameCompressor::default();
+    let mut flags = HeaderFlags::default();
+    flags.set_qr(true);
+    let mut b = NewBuilder::new(&mut buffer, &mut compressor, U16::new(0x1234), flags);
+    let rn = |x: &str| RevNameBuf::from_str(x).unwrap();
+    let cnt = |b: &NewBuilder<'_, '_>| {
+        let c = b.header().counts;
+        [c.questions.get(), c.answers.get(), c.authorities.get(), c.additionals.get()]
+    };
+    let len = |b: &NewBuilder<'_, '_>| 12 + b.message().contents.len();
+    let mut steps = vec![];
+    let mut oks = vec![];
+    let mut n = 0usize;
+    if let Some((k, p)) = rewind {
+        // limit_to(p), a first segment, truncate(): the limit must survive it
+        let ok = b.limit_to(p).is_ok();
+        steps.push(lim_json(ok, p, len(&b), cnt(&b)));
+        let _ = b.push_question(&domain::new::base::Question { qname: rn(&s.qname), qtype: QType::A, qclass: QClass::IN });
+        for r in s.recs.iter().take(k) {
+            let _ = new_rec_push(&mut b, r);
+        }
+        b.truncate();
+        // TC is the mark truncate() leaves; cleared so that the octets compare with the other runs
+        b.header_mut().flags.set_tc(false);
+        steps.push(trunc_json(len(&b), cnt(&b)));
+    }
+    hook(n, &mut b, &mut steps);
+    if idx.contains(&0) {
+        let ok = b
+            .push_question(&domain::new::base::Question { qname: rn(&s.qname), qtype: QType::A, qclass: QClass::IN })
+            .is_ok();
+        steps.push(push_json(0, ok, 0, len(&b), cnt(&b)));
+        oks.push(ok);
+        n += 1;
+    }
+    for (i, r) in s.recs.iter().enumerate() {
+        if !idx.contains(&(i + 1)) {
+            continue;
+        }
+        hook(n, &mut b, &mut steps);
+        let ok = new_rec_push(&mut b, r);
+        steps.push(push_json(r.sec, ok, 0, len(&b), cnt(&b)));
+        oks.push(ok);
+        n += 1;
+    }
+    let msg = b.finish();
+    let mut out = vec![];
+    out.extend_from_slice(domain::new::base::wire::AsBytes::as_bytes(&msg.header));
+    out.extend_from_slice(&msg.contents);
+    (steps, oks, out)
+}
+
+/// One limited run of script `s` on one side: every item is attempted.  The
+/// `need` of a push - the length the message has if the push is admitted - is
+/// measured on an unlimited builder of the same side that is given the items
+/// accepted so far and then this one.
+fn limited_run(side: &str, s: &Script, plan: Plan) -> Value {
+    let all: Vec<usize> = (0..=s.recs.len()).collect();
+    let big = 4000usize;
+    let rewind = if plan.ep.ends_with("_rewound") { Some((2usize, plan.p)) } else { None };
+    let (mut steps, oks, m) = if side == "old" {
+        let mut hook = |n: usize, mb: &mut MessageBuilder<TreeCompressor<Capped>>, st: &mut Vec<Value>| {
+            let cnt = |c: domain::base::header::HeaderCounts| [c.qdcount(), c.ancount(), c.nscount(), c.arcount()];
+            if plan.ep == "push_limit" {
+                if n == 0 {
+                    if let Some(q) = plan.pre {
+                        mb.set_push_limit(q);
+                        st.push(lim_json(true, q, mb.as_slice().len(), cnt(mb.counts())));
+                    }
+                }
+                if n == plan.at {
+                    mb.set_push_limit(plan.p);
+                    st.push(lim_json(true, plan.p, mb.as_slice().len(), cnt(mb.counts())));
+                }
+            }
+        };
+        let cap = if plan.ep == "capacity" { plan.p } else { big };
+        old_run(Capped { v: vec![], cap }, s, &all, rewind, &mut hook)
+    } else {
+        let mut done = (false, false);
+        let mut hook = |n: usize, b: &mut NewBuilder<'_, '_>, st: &mut Vec<Value>| {
+            let c = b.header().counts;
+            let c4 = [c.questions.get(), c.answers.get(), c.authorities.get(), c.additionals.get()];
+            if plan.ep == "limit_to" {
+                if n == 0 && !done.0 {
+                    done.0 = true;
+                    if let Some(q) = plan.pre {
+                        let ok = b.limit_to(q).is_ok();
+                        st.push(lim_json(ok, q, 12 + b.message().contents.len(), c4));
+                    }
+                }
+                if n == plan.at && !done.1 {
+                    done.1 = true;
+                    let ok = b.limit_to(plan.p).is_ok();
+                    st.push(lim_json(ok, plan.p, 12 + b.message().contents.len(), c4));
+                }
+            }
+        };
+        let bufsize = if plan.ep == "buffer" { plan.p } else { big };
+        new_run(bufsize, s, &all, rewind, &mut hook)
+    };
+    // the need of every push, from unlimited builders
+    let mut acc: Vec<usize> = vec![];
+    let mut k = 0usize;
+    for st in steps.iter_mut() {
+        if st["op"] != "push" {
+            continue;
+        }
+        let mut idx = acc.clone();
+        idx.push(k);
+        let need = if side == "old" {
+            let (ps, _, _) = old_run(Capped { v: vec![], cap: big }, s, &idx, None, &mut |_, _, _| {});
+            ps.last().unwrap()["len"].clone()
+        } else {
+            let (ps, _, _) = new_run(big, s, &idx, None, &mut |_, _, _| {});
+            ps.last().unwrap()["len"].clone()
+        };
+        st["need"] = need;
+        if oks[k] {
+            acc.push(k);
+        }
+        k += 1;
+    }
+    json!({"side": side, "ep": plan.ep, "p": plan.p, "at": plan.at, "cap": if plan.ep == "capacity" || plan.ep == "buffer" { plan.p } else { big },
+           "steps": steps, "oks": oks, "m": json_bytes(&m)})
+}
+
+const LPOOL: &[&str] = &[
+    "example.com.", "www.example.com.", "mail.example.com.", "a.", "b.a.", "c.b.a.", "com.", "x.y.example.com.",
+    "example.org.", "w.example.com.", "ns.example.org.",
+];
+
+/// a short script over lower-case names (the two compressors agree on
+/// those): question and 3..5 records of every size class
+fn gen_limit_script(rng: &mut Rng) -> Script {
+    let pick = |rng: &mut Rng| LPOOL[rng.below(LPOOL.len() as u64) as usize].to_string();
+    let mut recs = vec![];
+    let mut sec = 1u8;
+    for _ in 0..(3 + rng.below(3)) {
+        if rng.chance(1, 3) && sec < 3 {
+            sec += 1;
+        }
+        let owner = pick(rng);
+        let rd = match rng.below(6) {
+            0 => Rd::Ns(pick(rng)),
+            1 => Rd::Cname(pick(rng)),
+            2 => Rd::Mx(pick(rng)),
+            3 | 4 => Rd::A,
+            _ => Rd::Raw(rng.below(14) as usize),
+        };
+        recs.push(Rec { sec, owner, rd });
+    }
+    Script { qname: pick(rng), recs, edns: None }
+}
+
+/// octets of an item that are not part of a name
+fn fixed_octets(s: &Script) -> Vec<usize> {
+    let mut v = vec![4usize];
+    for r in &s.recs {
+        v.push(10 + match &r.rd {
+            Rd::Ns(_) | Rd::Cname(_) => 0,
+            Rd::Mx(_) => 2,
+            Rd::A => 4,
+            Rd::Raw(k) => *k,
+        });
+    }
+    v
+}
+
+/// All limiting entry points of both builders under the abstract limit `m`
+/// (the largest message, header included, that may be built): one `limit`
+/// event.  set_push_limit(p) refuses a message of p octets, so its
+/// parameter for the abstract limit m is m + 1.
+fn limit_event(s: &Script, m: usize) -> Value {
+    let k = 1 + m % 3;
+    let mut plans: Vec<(&str, Plan)> = vec![
+        ("old", Plan { ep: "push_limit", p: m + 1, at: 0, pre: None }),
+        ("old", Plan { ep: "capacity", p: m, at: 0, pre: None }),
+        ("new", Plan { ep: "buffer", p: m, at: 0, pre: None }),
+        ("new", Plan { ep: "limit_to", p: m, at: 0, pre: None }),
+        ("old", Plan { ep: "push_limit", p: m + 1, at: k, pre: None }),
+        ("new", Plan { ep: "limit_to", p: m, at: k, pre: None }),
+        ("old", Plan { ep: "push_limit_rewound", p: m + 1, at: 0, pre: None }),
+        ("new", Plan { ep: "limit_to_rewound", p: m, at: 0, pre: None }),
+    ];
+    if m % 2 == 0 {
+        // a laxer limit first, the stricter one replaces / narrows it
+        plans.push(("old", Plan { ep: "push_limit", p: m + 1, at: 0, pre: Some(m + 8) }));
+        plans.push(("new", Plan { ep: "limit_to", p: m, at: 0, pre: Some(m + 7) }));
+    } else {
+        // the stricter limit first, then a laxer one: the established
+        // builder's soft limit is replaced, limit_to() can only narrow
+        plans.push(("new", Plan { ep: "limit_to", p: m + 7, at: 0, pre: Some(m) }));
+    }
+    let mut runs = vec![];
+    let mut outs: Vec<Value> = vec![];
+    let all = expected_items(s);
+    for (side, plan) in plans {
+        let r = catch_unwind(AssertUnwindSafe(|| limited_run(side, s, plan)));
+        match r {
+            Ok(run) => {
+                if !outs.iter().any(|o| o["m"] == run["m"] && o["oks"] == run["oks"]) {
+                    let oks: Vec<bool> = run["oks"].as_array().unwrap().iter().map(|b| b.as_bool().unwrap()).collect();
+                    let want = accepted_items(s, &oks);
+                    let mb = bytes_of(&run["m"]);
+                    let j = judge(&mb, &want);
+                    outs.push(json!({"m": run["m"], "oks": run["oks"], "old_reads": j["old_reads"], "new_reads": j["new_reads"]}));
+                }
+                runs.push(run);
+            }
+            Err(_) => runs.push(json!({"side": side, "ep": plan.ep, "p": plan.p, "at": plan.at, "cap": 0, "steps": [], "oks": [],
+                                       "m": [], "panic": true})),
+        }
+    }
+    json!({"ev": "limit", "limit": m, "items": all, "fixed": fixed_octets(s), "runs": runs, "outs": outs})
+}
+
 fn gen_fill_script(rng: &mut Rng) -> Script {
     let pick = |rng: &mut Rng| POOL[rng.below(POOL.len() as u64) as usize].to_string();
     let mut recs = vec![];
@@ -978,6 +1378,19 @@ fn main() {
         let mut prng = Rng::new(seed ^ 0x5EED_11A1);
         for k in 0..(n / 3).max(32) {
             tw.event(plain_event(&mut prng, k));
+        }
+    }
+    // every size limit from 12 to beyond the full length, through every
+    // limiting entry point of both builders
+    {
+        let mut lrng = Rng::new(seed ^ 0x11A1_7007);
+        for _ in 0..(n / 240).max(1) {
+            let s = gen_limit_script(&mut lrng);
+            let (full, _, _) = old_run(Capped { v: vec![], cap: 4000 }, &s, &(0..=s.recs.len()).collect::<Vec<_>>(), None, &mut |_, _, _| {});
+            let flen = full.last().unwrap()["len"].as_u64().unwrap() as usize;
+            for m in 12..=(flen + 14) {
+                tw.event(limit_event(&s, m));
+            }
         }
     }
     for i in 0..n {
